@@ -8,6 +8,7 @@ import (
 	"time"
 
 	"github.com/karagenc/socket.io-go/internal/sync"
+	"github.com/karagenc/socket.io-go/internal/verifhook"
 
 	"github.com/fatih/structs"
 	"github.com/karagenc/socket.io-go/adapter"
@@ -411,6 +412,7 @@ func (s *clientSocket) onConnect(_ *parser.PacketHeader, decode parser.Decode) {
 	s.stateMu.Unlock()
 
 	s.debug.Log("Socket connected")
+	verifhook.Hit("clientSocket.onConnect:before-flush")
 
 	s.emitBuffered()
 	s.connectHandlers.forEach(func(handler *ClientSocketConnectFunc) { (*handler)() }, false)
